@@ -2,6 +2,8 @@ SPECIFICATION Spec
 CONSTANTS
   Deviations <- RealDevs
   Menu <- MenuWitness
+  VarMenu <- NoItems
+  VarVersions <- AllVersions
   MultiMenu <- TripleQuick
   TripleMenu <- TripleQuick
   MaxItems = 1
